@@ -18,8 +18,12 @@ import (
 	"github.com/hyperledger/aries-framework-go/component/models/did"
 	"github.com/hyperledger/aries-framework-go/component/storageutil/mem"
 	"github.com/hyperledger/aries-framework-go/pkg/didcomm/common/service"
+	"github.com/hyperledger/aries-framework-go/pkg/didcomm/protocol/didexchange"
 	"github.com/hyperledger/aries-framework-go/pkg/didcomm/protocol/introduce"
+	"github.com/hyperledger/aries-framework-go/pkg/didcomm/protocol/issuecredential"
+	"github.com/hyperledger/aries-framework-go/pkg/didcomm/protocol/legacyconnection"
 	"github.com/hyperledger/aries-framework-go/pkg/didcomm/protocol/messagepickup"
+	"github.com/hyperledger/aries-framework-go/pkg/didcomm/protocol/presentproof"
 	"github.com/hyperledger/aries-framework-go/pkg/didcomm/transport"
 	"github.com/hyperledger/aries-framework-go/pkg/framework/aries"
 	"github.com/hyperledger/aries-framework-go/pkg/framework/context"
@@ -38,6 +42,10 @@ type ProtoCase struct {
 	Mut    string `json:"mut"`    // closure mutation
 	Conn   bool   `json:"conn"`   // a completed connection with the sender exists
 	Second bool   `json:"second"` // the mutated message is delivered twice
+	// Pre: history prefix as template indexes ("3,1": invitation, then response) delivered on the same thread before
+	// the mutated message (role-consistent prefixes of the protocol's exchanges; the agent's application continues
+	// every action, so the thread is in the state those messages lead to)
+	Pre string `json:"pre,omitempty"`
 }
 
 // ---------- templates: what the framework's encoders emit for each message type (thread T) ----------
@@ -84,49 +92,55 @@ func realDoc(ctx *context.Provider, id string) string {
 func templates() map[string][]string {
 	doc64 := base64.StdEncoding.EncodeToString([]byte(peerDoc(theirDID)))
 	att := `{"@id":"a1","mime-type":"application/json","data":{"base64":"` + doc64 + `"}}`
-	thread := `"~thread":{"thid":"T","pthid":"P"}`
+	thread := `"~thread":{"thid":"T§","pthid":"P§"}`
+	// connection protocols: the thread of a response / ack is the id of the request, which the agent itself chose when
+	// it was the invitee: "@THID@" is replaced in the worker by the thread of the connection record the item's
+	// invitation created (T§ when there is none)
+	cthread := `"~thread":{"thid":"@THID@","pthid":"P§"}`
 	cred := `{"@id":"c1","mime-type":"application/ld+json","data":{"json":` + strings.ReplaceAll(vcSimple, "\n", "") + `}}`
 
 	return map[string][]string{
 		"didexchange": {
-			`{"@type":"https://didcomm.org/didexchange/1.0/request","@id":"T","label":"bob","did":"` + theirDID + `","did_doc~attach":` + att + `,"~thread":{"pthid":"P"}}`,
-			`{"@type":"https://didcomm.org/didexchange/1.0/response","@id":"r2","did":"` + theirDID + `","did_doc~attach":` + att + `,` + thread + `}`,
-			`{"@type":"https://didcomm.org/didexchange/1.0/complete","@id":"r3",` + thread + `}`,
-			`{"@type":"https://didcomm.org/didexchange/1.0/invitation","@id":"P","label":"bob","recipientKeys":["did:key:z6MkpTHR8VNsBxYAAWHut2Geadd9jSwuBV8xRoAnwWsdvktH"],"serviceEndpoint":"http://127.0.0.1:1/","routingKeys":[]}`,
-			`{"@type":"https://didcomm.org/didexchange/1.0/ack","@id":"r4","status":"OK",` + thread + `}`,
+			`{"@type":"https://didcomm.org/didexchange/1.0/request","@id":"T§","label":"bob","did":"` + theirDID + `","did_doc~attach":` + att + `,"~thread":{"pthid":"P§"}}`,
+			`{"@type":"https://didcomm.org/didexchange/1.0/response","@id":"r2","did":"` + theirDID + `","did_doc~attach":` + att + `,` + cthread + `}`,
+			`{"@type":"https://didcomm.org/didexchange/1.0/complete","@id":"r3",` + cthread + `}`,
+			`{"@type":"https://didcomm.org/didexchange/1.0/invitation","@id":"P§","label":"bob","recipientKeys":["did:key:z6MkpTHR8VNsBxYAAWHut2Geadd9jSwuBV8xRoAnwWsdvktH"],"serviceEndpoint":"http://127.0.0.1:1/","routingKeys":[]}`,
+			`{"@type":"https://didcomm.org/didexchange/1.0/ack","@id":"r4","status":"OK",` + cthread + `}`,
 		},
 		"legacyconnection": {
-			`{"@type":"https://didcomm.org/connections/1.0/request","@id":"T","label":"bob","connection":{"DID":"` + theirDID + `","DIDDoc":` + peerDoc(theirDID) + `},"~thread":{"pthid":"P"}}`,
-			`{"@type":"https://didcomm.org/connections/1.0/response","@id":"r2","connection~sig":{"@type":"https://didcomm.org/signature/1.0/ed25519Sha512_single","signature":"AAAA","sig_data":"AAAAAAAAAAB7fQ==","signer":"H3C2AVvLMv6gmMNam3uVAjZpfkcJCwDwnZn6z3wXmqPV"},` + thread + `}`,
-			`{"@type":"https://didcomm.org/notification/1.0/ack","@id":"r3","status":"OK",` + thread + `}`,
-			`{"@type":"https://didcomm.org/connections/1.0/invitation","@id":"P","label":"bob","recipientKeys":["H3C2AVvLMv6gmMNam3uVAjZpfkcJCwDwnZn6z3wXmqPV"],"serviceEndpoint":"http://127.0.0.1:1/","did":""}`,
+			`{"@type":"https://didcomm.org/connections/1.0/request","@id":"T§","label":"bob","connection":{"DID":"` + theirDID + `","DIDDoc":` + peerDoc(theirDID) + `},"~thread":{"pthid":"P§"}}`,
+			`{"@type":"https://didcomm.org/connections/1.0/response","@id":"r2","connection~sig":{"@type":"https://didcomm.org/signature/1.0/ed25519Sha512_single","signature":"AAAA","sig_data":"AAAAAAAAAAB7fQ==","signer":"H3C2AVvLMv6gmMNam3uVAjZpfkcJCwDwnZn6z3wXmqPV"},` + cthread + `}`,
+			`{"@type":"https://didcomm.org/notification/1.0/ack","@id":"r3","status":"OK",` + cthread + `}`,
+			`{"@type":"https://didcomm.org/connections/1.0/invitation","@id":"P§","label":"bob","recipientKeys":["H3C2AVvLMv6gmMNam3uVAjZpfkcJCwDwnZn6z3wXmqPV"],"serviceEndpoint":"http://127.0.0.1:1/","did":""}`,
+			// the interop form of a request: a document whose id is a bare key and an IndyAgent service with raw base58 keys
+			`{"@type":"https://didcomm.org/connections/1.0/request","@id":"T§","label":"bob","connection":{"DID":"H3C2AVvLMv6gmMNam3uVAj","DIDDoc":{"@context":"https://w3id.org/did/v1","id":"H3C2AVvLMv6gmMNam3uVAj","publicKey":[{"id":"H3C2AVvLMv6gmMNam3uVAj#1","type":"Ed25519VerificationKey2018","controller":"H3C2AVvLMv6gmMNam3uVAj","publicKeyBase58":"H3C2AVvLMv6gmMNam3uVAjZpfkcJCwDwnZn6z3wXmqPV"}],"authentication":[{"type":"Ed25519SignatureAuthentication2018","publicKey":"H3C2AVvLMv6gmMNam3uVAj#1"}],"service":[{"id":"H3C2AVvLMv6gmMNam3uVAj;indy","type":"IndyAgent","priority":0,"recipientKeys":["H3C2AVvLMv6gmMNam3uVAjZpfkcJCwDwnZn6z3wXmqPV"],"routingKeys":["JhNWeSVLMYccCk7iopQW4guaSJTojqpMEELgSLhKwRr"],"serviceEndpoint":"http://127.0.0.1:1/"}]}},"~thread":{"pthid":"P§"}}`,
 		},
 		"issuecredential": {
-			`{"@type":"https://didcomm.org/issue-credential/2.0/propose-credential","@id":"T","comment":"c","credential_proposal":{"@type":"https://didcomm.org/issue-credential/2.0/credential-preview","attributes":[{"name":"n","mime-type":"text/plain","value":"v"}]},"formats":[{"attach_id":"c1","format":"aries/ld-proof-vc@v1.0"}],"filters~attach":[` + cred + `]}`,
+			`{"@type":"https://didcomm.org/issue-credential/2.0/propose-credential","@id":"T§","comment":"c","credential_proposal":{"@type":"https://didcomm.org/issue-credential/2.0/credential-preview","attributes":[{"name":"n","mime-type":"text/plain","value":"v"}]},"formats":[{"attach_id":"c1","format":"aries/ld-proof-vc@v1.0"}],"filters~attach":[` + cred + `]}`,
 			`{"@type":"https://didcomm.org/issue-credential/2.0/offer-credential","@id":"o1","comment":"c","credential_preview":{"@type":"https://didcomm.org/issue-credential/2.0/credential-preview","attributes":[{"name":"n","value":"v"}]},"formats":[{"attach_id":"c1","format":"aries/ld-proof-vc@v1.0"}],"offers~attach":[` + cred + `],` + thread + `}`,
 			`{"@type":"https://didcomm.org/issue-credential/2.0/request-credential","@id":"o2","comment":"c","formats":[{"attach_id":"c1","format":"aries/ld-proof-vc@v1.0"}],"requests~attach":[` + cred + `],` + thread + `}`,
 			`{"@type":"https://didcomm.org/issue-credential/2.0/issue-credential","@id":"o3","comment":"c","formats":[{"attach_id":"c1","format":"aries/ld-proof-vc@v1.0"}],"credentials~attach":[` + cred + `],` + thread + `,"~please_ack":{}}`,
 			`{"@type":"https://didcomm.org/issue-credential/2.0/ack","@id":"o4","status":"OK",` + thread + `}`,
 			`{"@type":"https://didcomm.org/issue-credential/2.0/problem-report","@id":"o5","description":{"code":"rejected","en":"no"},` + thread + `}`,
-			`{"@type":"https://didcomm.org/issue-credential/3.0/offer-credential","id":"T3","type":"https://didcomm.org/issue-credential/3.0/offer-credential","body":{"goal_code":"g","comment":"c","credential_preview":{"type":"https://didcomm.org/issue-credential/3.0/credential-preview","body":{"attributes":[{"name":"n","value":"v"}]}}},"attachments":[{"id":"c1","media_type":"application/json","format":"aries/ld-proof-vc@v1.0","data":{"json":{}}}]}`,
+			`{"@type":"https://didcomm.org/issue-credential/3.0/offer-credential","id":"T3§","type":"https://didcomm.org/issue-credential/3.0/offer-credential","body":{"goal_code":"g","comment":"c","credential_preview":{"type":"https://didcomm.org/issue-credential/3.0/credential-preview","body":{"attributes":[{"name":"n","value":"v"}]}}},"attachments":[{"id":"c1","media_type":"application/json","format":"aries/ld-proof-vc@v1.0","data":{"json":{}}}]}`,
 		},
 		"presentproof": {
-			`{"@type":"https://didcomm.org/present-proof/2.0/propose-presentation","@id":"T","comment":"c","formats":[{"attach_id":"c1","format":"dif/presentation-exchange/definitions@v1.0"}],"proposals~attach":[` + cred + `]}`,
+			`{"@type":"https://didcomm.org/present-proof/2.0/propose-presentation","@id":"T§","comment":"c","formats":[{"attach_id":"c1","format":"dif/presentation-exchange/definitions@v1.0"}],"proposals~attach":[` + cred + `]}`,
 			`{"@type":"https://didcomm.org/present-proof/2.0/request-presentation","@id":"p1","comment":"c","will_confirm":true,"formats":[{"attach_id":"c1","format":"dif/presentation-exchange/definitions@v1.0"}],"request_presentations~attach":[{"@id":"c1","mime-type":"application/json","data":{"json":{"presentation_definition":` + strings.ReplaceAll(pdJSON, "\n", "") + `}}}],` + thread + `}`,
 			`{"@type":"https://didcomm.org/present-proof/2.0/presentation","@id":"p2","comment":"c","formats":[{"attach_id":"c1","format":"dif/presentation-exchange/submission@v1.0"}],"presentations~attach":[` + cred + `],` + thread + `}`,
 			`{"@type":"https://didcomm.org/present-proof/2.0/ack","@id":"p3","status":"OK",` + thread + `}`,
 			`{"@type":"https://didcomm.org/present-proof/2.0/problem-report","@id":"p4","description":{"code":"rejected","en":"no"},` + thread + `}`,
-			`{"type":"https://didcomm.org/present-proof/3.0/request-presentation","id":"T3","body":{"goal_code":"g","will_confirm":true},"attachments":[{"id":"c1","media_type":"application/json","format":"dif/presentation-exchange/definitions@v1.0","data":{"json":{}}}]}`,
+			`{"type":"https://didcomm.org/present-proof/3.0/request-presentation","id":"T3§","body":{"goal_code":"g","will_confirm":true},"attachments":[{"id":"c1","media_type":"application/json","format":"dif/presentation-exchange/definitions@v1.0","data":{"json":{}}}]}`,
 		},
 		"introduce": {
-			`{"@type":"https://didcomm.org/introduce/1.0/request","@id":"T","please_introduce_to":{"name":"carol","description":"d","expected":true,"img~attach":{"data":{"base64":"AAAA"}}},"nwise":false,"~timing":{"expires_time":"2030-01-01T00:00:00Z"}}`,
+			`{"@type":"https://didcomm.org/introduce/1.0/request","@id":"T§","please_introduce_to":{"name":"carol","description":"d","expected":true,"img~attach":{"data":{"base64":"AAAA"}}},"nwise":false,"~timing":{"expires_time":"2030-01-01T00:00:00Z"}}`,
 			`{"@type":"https://didcomm.org/introduce/1.0/proposal","@id":"i1","to":{"name":"carol","description":"d","expected":true},"nwise":false,` + thread + `}`,
 			`{"@type":"https://didcomm.org/introduce/1.0/response","@id":"i2","approve":true,"oob-message":{"@type":"https://didcomm.org/out-of-band/1.0/invitation","@id":"oob1","label":"carol","services":["did:example:carol"],"handshake_protocols":["https://didcomm.org/didexchange/1.0"]},` + thread + `}`,
 			`{"@type":"https://didcomm.org/introduce/1.0/ack","@id":"i3","status":"OK",` + thread + `}`,
 			`{"@type":"https://didcomm.org/introduce/1.0/problem-report","@id":"i4","description":{"code":"rejected","en":"no"},` + thread + `}`,
 		},
 		"mediator": {
-			`{"@type":"https://didcomm.org/coordinatemediation/1.0/mediate-request","@id":"T","~timing":{}}`,
+			`{"@type":"https://didcomm.org/coordinatemediation/1.0/mediate-request","@id":"T§","~timing":{}}`,
 			`{"@type":"https://didcomm.org/coordinatemediation/1.0/keylist-update","@id":"k1","updates":[{"recipient_key":"did:key:z6MkpTHR8VNsBxYAAWHut2Geadd9jSwuBV8xRoAnwWsdvktH","action":"add"}]}`,
 			`{"@type":"https://didcomm.org/coordinatemediation/1.0/mediate-grant","@id":"k2","endpoint":"http://127.0.0.1:1/","routing_keys":["did:key:z6MkpTHR8VNsBxYAAWHut2Geadd9jSwuBV8xRoAnwWsdvktH"],` + thread + `}`,
 			`{"@type":"https://didcomm.org/coordinatemediation/1.0/keylist-update-response","@id":"k3","updated":[{"recipient_key":"did:key:z6MkpTHR8VNsBxYAAWHut2Geadd9jSwuBV8xRoAnwWsdvktH","action":"add","result":"success"}],` + thread + `}`,
@@ -134,19 +148,32 @@ func templates() map[string][]string {
 			`{"type":"https://didcomm.org/routing/2.0/forward","id":"f2","body":{"next":"did:key:z6MkpTHR8VNsBxYAAWHut2Geadd9jSwuBV8xRoAnwWsdvktH"},"to":["did:example:m"],"attachments":[{"id":"a","data":{"json":{"protected":"e30"}}}]}`,
 		},
 		"messagepickup": {
-			`{"@type":"https://didcomm.org/messagepickup/1.0/status-request","@id":"T",` + thread + `}`,
+			`{"@type":"https://didcomm.org/messagepickup/1.0/status-request","@id":"T§",` + thread + `}`,
 			`{"@type":"https://didcomm.org/messagepickup/1.0/batch-pickup","@id":"m1","batch_size":1,` + thread + `}`,
 			`{"@type":"https://didcomm.org/messagepickup/1.0/status","@id":"m2","message_count":1,"duration_waited":1,"last_added_time":"2020-01-01T00:00:00Z","last_delivered_time":"2020-01-01T00:00:00Z","last_removed_time":"2020-01-01T00:00:00Z","total_size":1,` + thread + `}`,
 			`{"@type":"https://didcomm.org/messagepickup/1.0/batch","@id":"m3","messages~attach":[{"id":"x","message":{"protected":"e30"}}],` + thread + `}`,
 			`{"@type":"https://didcomm.org/messagepickup/1.0/noop","@id":"m4","~timing":{}}`,
 		},
 		"outofband": {
-			`{"@type":"https://didcomm.org/out-of-band/1.0/invitation","@id":"T","label":"bob","goal":"g","goal_code":"gc","services":[{"id":"s1","type":"did-communication","recipientKeys":["did:key:z6MkpTHR8VNsBxYAAWHut2Geadd9jSwuBV8xRoAnwWsdvktH"],"serviceEndpoint":"http://127.0.0.1:1/"},"` + theirDID + `"],"accept":["didcomm/aip2;env=rfc19"],"handshake_protocols":["https://didcomm.org/didexchange/1.0"],"requests~attach":[` + att + `]}`,
-			`{"@type":"https://didcomm.org/out-of-band/1.0/handshake-reuse","@id":"h1","~thread":{"thid":"h1","pthid":"T"}}`,
-			`{"@type":"https://didcomm.org/out-of-band/1.0/handshake-reuse-accepted","@id":"h2","~thread":{"thid":"h1","pthid":"T"}}`,
-			`{"type":"https://didcomm.org/out-of-band/2.0/invitation","id":"T2","from":"` + theirDID + `","label":"bob","body":{"goal":"g","goal_code":"gc","accept":["didcomm/v2"]},"attachments":[{"id":"a","media_type":"application/json","data":{"json":{"type":"https://didcomm.org/present-proof/3.0/request-presentation","id":"x","body":{}}}}]}`,
+			`{"@type":"https://didcomm.org/out-of-band/1.0/invitation","@id":"T§","label":"bob","goal":"g","goal_code":"gc","services":[{"id":"s1","type":"did-communication","recipientKeys":["did:key:z6MkpTHR8VNsBxYAAWHut2Geadd9jSwuBV8xRoAnwWsdvktH"],"serviceEndpoint":"http://127.0.0.1:1/"},"` + theirDID + `"],"accept":["didcomm/aip2;env=rfc19"],"handshake_protocols":["https://didcomm.org/didexchange/1.0"],"requests~attach":[` + att + `]}`,
+			`{"@type":"https://didcomm.org/out-of-band/1.0/handshake-reuse","@id":"h1§","~thread":{"thid":"h1§","pthid":"T§"}}`,
+			`{"@type":"https://didcomm.org/out-of-band/1.0/handshake-reuse-accepted","@id":"h2","~thread":{"thid":"h1§","pthid":"T§"}}`,
+			`{"type":"https://didcomm.org/out-of-band/2.0/invitation","id":"T2§","from":"` + theirDID + `","label":"bob","body":{"goal":"g","goal_code":"gc","accept":["didcomm/v2"]},"attachments":[{"id":"a","media_type":"application/json","data":{"json":{"type":"https://didcomm.org/present-proof/3.0/request-presentation","id":"x","body":{}}}}]}`,
 		},
 	}
+}
+
+// statePaths: role-consistent inbound sequences of each protocol (template indexes); the type-confused messages are
+// injected after every prefix of every path.
+var statePaths = map[string][][]int{
+	"didexchange":      {{0, 2}, {3, 1, 4}, {0, 0}},
+	"legacyconnection": {{0, 2}, {3, 1, 2}, {0, 0}, {4, 2}},
+	"issuecredential":  {{0, 2, 4}, {1, 3}, {1, 5}, {2, 4}, {6}},
+	"presentproof":     {{0, 2}, {1, 3}, {1, 4}, {5}},
+	"introduce":        {{0, 2, 2}, {0, 0}, {1, 3}, {1, 4}},
+	"mediator":         {{0, 1, 4}, {2, 3}},
+	"messagepickup":    {{0, 1, 1}, {2, 3}},
+	"outofband":        {{0, 1}, {0, 2}, {3}},
 }
 
 var protoOrder = []string{"didexchange", "legacyconnection", "issuecredential", "presentproof", "introduce", "mediator",
@@ -160,6 +187,8 @@ type workReq struct {
 	Msg  json.RawMessage `json:"msg"`
 	Conn bool            `json:"conn"`
 	Wait int             `json:"wait_ms"`
+	Inv  string          `json:"inv"` // id of the item's invitation / parent thread
+	Alt  string          `json:"alt"` // thread id to use when the agent has no connection record for Inv
 }
 
 type nullTransport struct{}
@@ -172,8 +201,9 @@ func (nullTransport) AcceptRecipient([]string) bool { return true }
 func (nullTransport) Accept(string) bool            { return true }
 
 type target struct {
-	ctx  *context.Provider
-	svcs []svc
+	ctx    *context.Provider
+	svcs   []svc
+	lookup *connection.Lookup
 }
 
 type svc interface {
@@ -215,6 +245,8 @@ func newTarget() *target {
 	rec, err := connection.NewRecorder(ctx)
 	must(err)
 
+	t.lookup = rec.Lookup
+
 	must(rec.SaveConnectionRecord(&connection.Record{ConnectionID: "conn1", State: "completed", ThreadID: "Tconn",
 		TheirDID: theirDID, MyDID: myDID, Namespace: "my", TheirLabel: "bob",
 		RecipientKeys: []string{"did:key:z6MkpTHR8VNsBxYAAWHut2Geadd9jSwuBV8xRoAnwWsdvktH"}}))
@@ -232,15 +264,61 @@ func newTarget() *target {
 
 // autoContinue approves every action the way an application would (introduce: with a recipient).
 func autoContinue(name string, ch chan service.DIDCommAction) {
+	introduced := map[string]bool{}
+
 	for a := range ch {
 		switch {
 		case name == introduce.Introduce && a.Message.Type() == introduce.RequestMsgType:
+			// the application names the recipients for the first request of a thread and simply continues a
+			// repeated one (the service then works with what it stored for the thread)
+			thid, _ := a.Message.ThreadID() //nolint:errcheck
+			if introduced[thid] {
+				a.Continue(nil)
+				continue
+			}
+
+			introduced[thid] = true
+
 			a.Continue(introduce.WithRecipients(&introduce.To{Name: "carol"}, &introduce.Recipient{
 				To: &introduce.To{Name: "dave"}, MyDID: myDID, TheirDID: theirDID}))
+		case name == issuecredential.Name:
+			switch a.Message.Type() {
+			case issuecredential.ProposeCredentialMsgTypeV2, issuecredential.ProposeCredentialMsgTypeV3:
+				a.Continue(issuecredential.WithOfferCredential(&issuecredential.OfferCredentialParams{}))
+			case issuecredential.RequestCredentialMsgTypeV2, issuecredential.RequestCredentialMsgTypeV3:
+				a.Continue(issuecredential.WithIssueCredential(&issuecredential.IssueCredentialParams{}))
+			default:
+				a.Continue(nil)
+			}
+		case name == presentproof.Name:
+			switch a.Message.Type() {
+			case presentproof.ProposePresentationMsgTypeV2, presentproof.ProposePresentationMsgTypeV3:
+				a.Continue(presentproof.WithRequestPresentation(&presentproof.RequestPresentationParams{}))
+			case presentproof.RequestPresentationMsgTypeV2, presentproof.RequestPresentationMsgTypeV3:
+				a.Continue(presentproof.WithPresentation(&presentproof.PresentationParams{}))
+			default:
+				a.Continue(nil)
+			}
 		default:
 			a.Continue(nil)
 		}
 	}
+}
+
+// threadOf finds the thread of the connection record that belongs to the invitation / parent thread inv.
+func (t *target) threadOf(inv, alt string) string {
+	recs, err := t.lookup.QueryConnectionRecords()
+	if err != nil {
+		return alt
+	}
+
+	for _, r := range recs {
+		if r.ConnectionID != "conn1" && (r.InvitationID == inv || r.ParentThreadID == inv) && r.ThreadID != "" {
+			return r.ThreadID
+		}
+	}
+
+	return alt
 }
 
 func (t *target) deliver(raw []byte, conn bool) {
@@ -256,7 +334,10 @@ func (t *target) deliver(raw []byte, conn bool) {
 
 	for _, s := range t.svcs {
 		if s.Accept(msg.Type()) {
-			_, _ = s.HandleInbound(msg.Clone(), dctx)
+			_, e := s.HandleInbound(msg.Clone(), dctx)
+			if e != nil && os.Getenv("C03_DEBUG") != "" {
+				fmt.Fprintf(os.Stderr, "c03-debug: %s HandleInbound(%s): %v\n", s.Name(), msg.Type(), e)
+			}
 		}
 	}
 }
@@ -274,7 +355,12 @@ func workerMain(_ string) {
 			if json.Unmarshal(line, &req) == nil {
 				switch req.Op {
 				case "msg":
-					t.deliver(req.Msg, req.Conn)
+					raw := []byte(req.Msg)
+					if bytes.Contains(raw, []byte("@THID@")) {
+						raw = bytes.ReplaceAll(raw, []byte("@THID@"), []byte(t.threadOf(req.Inv, req.Alt)))
+					}
+
+					t.deliver(raw, req.Conn)
 
 					if req.Wait > 0 {
 						time.Sleep(time.Duration(req.Wait) * time.Millisecond)
@@ -299,8 +385,9 @@ func workerMain(_ string) {
 // ---------- parent side ----------
 
 type protoItem struct {
-	pc  ProtoCase
-	seq [][]byte // messages to deliver: prefix + the mutated message (+ once more)
+	pc   ProtoCase
+	seq  [][]byte // messages to deliver: prefix + the mutated message (+ once more)
+	uniq string   // suffix of the item's thread ids
 }
 
 type batchResult struct {
@@ -357,11 +444,16 @@ func runBatch(items []protoItem, quiesce int) batchResult {
 		for i, it := range items {
 			for k, m := range it.seq {
 				wait := 2
+				if it.pc.Pre != "" {
+					wait = 6 // the application's continuation of the prefix message must have run
+				}
+
 				if k == len(it.seq)-1 {
 					wait = 0
 				}
 
-				b, _ := json.Marshal(workReq{Op: "msg", ID: i, Msg: m, Conn: it.pc.Conn, Wait: wait}) //nolint:errcheck
+				b, _ := json.Marshal(workReq{Op: "msg", ID: i, Msg: m, Conn: it.pc.Conn, Wait: wait, //nolint:errcheck
+					Inv: "P" + it.uniq, Alt: "T" + it.uniq})
 				w.Write(b)                                                                           //nolint:errcheck
 				w.WriteByte('\n')                                                                    //nolint:errcheck
 			}
@@ -466,16 +558,76 @@ func (r *runner) protoItems() []protoItem {
 				}
 
 				for _, pc := range variants {
-					it := protoItem{pc: pc}
+					it := protoItem{pc: pc, uniq: fmt.Sprintf("-%d", len(items))}
+					// every item works on threads of its own (the worker's agent is shared by a batch)
+					uniq := []byte(it.uniq)
+					own := func(b []byte) []byte { return bytes.ReplaceAll(b, []byte("§"), uniq) }
 
 					if pc.Second {
-						it.seq = append(it.seq, prefix...)
-						it.seq = append(it.seq, wire, wire)
+						for _, p := range prefix {
+							it.seq = append(it.seq, own(p))
+						}
+
+						it.seq = append(it.seq, own(wire), own(wire))
 					} else {
-						it.seq = append(it.seq, wire)
+						it.seq = append(it.seq, own(wire))
 					}
 
 					items = append(items, it)
+				}
+			}
+		}
+	}
+
+	// state-dependent injection: after every prefix of every role-consistent path, every template of the protocol
+	// (seed + a rotating sample of its closure; the thorough tier takes every fourth mutation)
+	stride := 37
+	if r.tier == "thorough" {
+		stride = 4
+	}
+
+	for _, proto := range protoOrder {
+		list := tpls[proto]
+
+		seen := map[string]bool{}
+
+		for _, path := range statePaths[proto] {
+			for j := 1; j <= len(path); j++ {
+				pre := path[:j]
+
+				key := fmt.Sprint(pre)
+				if seen[key] {
+					continue
+				}
+
+				seen[key] = true
+
+				preStr := strings.Trim(strings.ReplaceAll(fmt.Sprint(pre), " ", ","), "[]")
+
+				for idx, tpl := range list {
+					tree, ok := explodeWire([]byte(tpl))
+					if !ok {
+						continue
+					}
+
+					muts := append([]Mut{{Path: "", Name: "seed", Tree: tree}}, closure(tree)...)
+
+					for mi, m := range muts {
+						if m.Name != "seed" && (mi+int(r.seed)+idx+j)%stride != 0 {
+							continue
+						}
+
+						pc := ProtoCase{Proto: proto, Index: idx, Path: m.Path, Mut: m.Name, Conn: true, Pre: preStr}
+						it := protoItem{pc: pc, uniq: fmt.Sprintf("-%d", len(items))}
+						uniq := []byte(it.uniq)
+
+						for _, pi := range pre {
+							it.seq = append(it.seq, bytes.ReplaceAll([]byte(list[pi]), []byte("§"), uniq))
+						}
+
+						it.seq = append(it.seq, bytes.ReplaceAll(render(m.Tree), []byte("§"), uniq))
+						items = append(items, it)
+					}
 				}
 			}
 		}
@@ -510,23 +662,31 @@ func (r *runner) emitProto(kind string, it protoItem, res batchResult, alone boo
 	}
 
 	rec.Observed = o
-	rec.Class = fmt.Sprintf("E9|%s|%d|%s|%s|%v|%v|%s", it.pc.Proto, it.pc.Index, it.pc.Path, it.pc.Mut, it.pc.Conn, it.pc.Second, o.Class)
+	rec.Class = fmt.Sprintf("E9|%s|%d|%s|%s|%v|%v|%s|%s", it.pc.Proto, it.pc.Index, it.pc.Path, it.pc.Mut, it.pc.Conn, it.pc.Second,
+		it.pc.Pre, o.Class)
 	rec.Dist = []string{"layer:E9", "ep:HandleInbound:" + it.pc.Proto, "outcome:" + o.Class, "gen:proto"}
+	if it.pc.Pre != "" {
+		rec.Dist = append(rec.Dist, "after-prefix:"+it.pc.Proto+":"+it.pc.Pre)
+	}
 
 	if o.Class != "ok" {
 		r.fails++
 		rec.Oracle = "fail"
 		rec.Sig = o.Class + "@" + o.Site
-		rec.Detail = fmt.Sprintf("%s in a handler goroutine of the agent: protocol %s, template %d, %s %s (conn=%v, delivered twice=%v): %s",
-			o.Class, it.pc.Proto, it.pc.Index, it.pc.Path, it.pc.Mut, it.pc.Conn, it.pc.Second, o.Err)
+		rec.Detail = fmt.Sprintf("%s in a handler goroutine of the agent: protocol %s, template %d, %s %s (conn=%v, delivered twice=%v, after prefix [%s]): %s",
+			o.Class, it.pc.Proto, it.pc.Index, it.pc.Path, it.pc.Mut, it.pc.Conn, it.pc.Second, it.pc.Pre, o.Err)
 
 		if !alone {
 			rec.Detail += " [attributed inside a batch]"
 		}
 	}
 
+	if c := r.coqProto(it, o); c != "" {
+		rec.Coq = c
+	}
+
 	// message pickup pre-checks are modelled (E8): the seed / mutated status-request and batch-pickup
-	if it.pc.Proto == "messagepickup" && it.pc.Index <= 1 && !it.pc.Second {
+	if it.pc.Proto == "messagepickup" && it.pc.Index <= 1 && !it.pc.Second && it.pc.Pre == "" {
 		rec.Coq = r.coqPickup(it, o)
 	}
 
@@ -654,19 +814,177 @@ func (r *runner) runProtoRange(items []protoItem) {
 	r.runProtoRange(items[mid:])
 }
 
-func (r *runner) replayProto(c Case, kind string) bool {
-	for _, it := range r.protoItems() {
-		if it.pc == *c.Proto {
-			res := runBatch([]protoItem{it}, 800)
-			if res.crashed || res.timeout {
-				res = runBatch([]protoItem{it}, 800)
+// buildItem rebuilds the item of a protocol case from its description (used by replays and corpus witnesses, which
+// must not depend on the tier's sampling).
+func buildItem(pc ProtoCase) (protoItem, bool) {
+	list := templates()[pc.Proto]
+	if pc.Index < 0 || pc.Index >= len(list) {
+		return protoItem{}, false
+	}
+
+	tree, ok := explodeWire([]byte(list[pc.Index]))
+	if !ok {
+		return protoItem{}, false
+	}
+
+	var wire []byte
+
+	if pc.Mut == "seed" {
+		wire = render(tree)
+	} else {
+		for _, m := range closure(tree) {
+			if m.Path == pc.Path && m.Name == pc.Mut {
+				wire = render(m.Tree)
+				break
 			}
-
-			r.emitProto(kind+":proto", it, res, true)
-
-			return true
 		}
 	}
 
-	return false
+	if wire == nil {
+		return protoItem{}, false
+	}
+
+	it := protoItem{pc: pc, uniq: "-r"}
+	own := func(b []byte) []byte { return bytes.ReplaceAll(b, []byte("§"), []byte(it.uniq)) }
+
+	switch {
+	case pc.Pre != "":
+		for _, f := range strings.Split(pc.Pre, ",") {
+			var pi int
+			if _, err := fmt.Sscanf(f, "%d", &pi); err != nil || pi < 0 || pi >= len(list) {
+				return protoItem{}, false
+			}
+
+			it.seq = append(it.seq, own([]byte(list[pi])))
+		}
+
+		it.seq = append(it.seq, own(wire))
+	case pc.Second:
+		for _, p := range list[:pc.Index] {
+			it.seq = append(it.seq, own([]byte(p)))
+		}
+
+		it.seq = append(it.seq, own(wire), own(wire))
+	default:
+		it.seq = append(it.seq, own(wire))
+	}
+
+	return it, true
+}
+
+func (r *runner) replayProto(c Case, kind string) bool {
+	it, ok := buildItem(*c.Proto)
+	if !ok {
+		return false
+	}
+
+	res := runBatch([]protoItem{it}, 800) //nolint:gomnd
+	if res.crashed || res.timeout {
+		res = runBatch([]protoItem{it}, 800) //nolint:gomnd
+	}
+
+	r.emitProto(kind+":proto", it, res, true)
+
+	return true
+}
+
+// coqProto hands the modelled pre-checks of the connection protocols / introduce (E9) the shape of the delivered
+// message.  Handlers work asynchronously: the observation is "the agent survived" (ONoCrash) or a crash.
+func (r *runner) coqProto(it protoItem, o Outcome) string {
+	obs := "ONoCrash"
+	if o.Class == "panic" {
+		obs = "OPanic"
+	} else if o.Class == "timeout" {
+		obs = "OTimeout"
+	}
+
+	last := it.seq[len(it.seq)-1]
+
+	msg, err := service.ParseDIDCommMsgMap(last)
+	if err != nil {
+		return ""
+	}
+
+	pc := it.pc
+
+	switch {
+	case (pc.Proto == "didexchange" || pc.Proto == "legacyconnection") && pc.Index == 3 && pc.Pre == "" && !pc.Second:
+		var (
+			did  string
+			keys []string
+		)
+
+		if pc.Proto == "didexchange" {
+			inv := &didexchange.Invitation{}
+			if msg.Decode(inv) != nil {
+				return ""
+			}
+
+			did, keys = inv.DID, inv.RecipientKeys
+		} else {
+			inv := &legacyconnection.Invitation{}
+			if msg.Decode(inv) != nil {
+				return ""
+			}
+
+			did, keys = inv.DID, inv.RecipientKeys
+		}
+
+		ks := make([]string, len(keys))
+
+		for i, k := range keys {
+			s, ok := coqStr(k)
+			if !ok {
+				return ""
+			}
+
+			ks[i] = s
+		}
+
+		return mkCase(fmt.Sprintf("(I9inv %s %s [%s])", coqBool(pc.Proto == "legacyconnection"), coqBool(did != ""),
+			strings.Join(ks, "; ")), obs)
+	case pc.Proto == "legacyconnection" && pc.Index == 1 && pc.Pre == "3":
+		resp := &legacyconnection.Response{}
+		if msg.Decode(resp) != nil {
+			return ""
+		}
+
+		sig := "None"
+
+		if cs := resp.ConnectionSignature; cs != nil {
+			data, e1 := base64.URLEncoding.DecodeString(cs.SignedData)
+			_, e2 := base64.URLEncoding.DecodeString(cs.Signature)
+			sig = fmt.Sprintf("(Some {| sv_data_ok := %s; sv_data_len := (%d)%%Z; sv_sig_ok := %s |})", coqBool(e1 == nil),
+				len(data), coqBool(e2 == nil))
+		}
+
+		return mkCase("(I9resp "+sig+")", obs)
+	case pc.Proto == "legacyconnection" && pc.Index == 4 && pc.Pre == "" && !pc.Second:
+		var m struct {
+			Connection struct {
+				DIDDoc struct {
+					Service []struct {
+						RecipientKeys []string `json:"recipientKeys"`
+					} `json:"service"`
+				} `json:"DIDDoc"`
+			} `json:"connection"`
+		}
+
+		if json.Unmarshal(last, &m) != nil || len(m.Connection.DIDDoc.Service) == 0 {
+			return ""
+		}
+
+		var ks []string
+
+		for _, k := range m.Connection.DIDDoc.Service[0].RecipientKeys {
+			ks = append(ks, fmt.Sprintf("(%s, %s, %s, %s)", coqBool(k == ""), coqBool(k != "" && strings.Contains("?/#", k[:1])),
+				coqBool(strings.HasPrefix(k, "did:")), coqBool(asciiOnly(k))))
+		}
+
+		return mkCase("(I9keys ["+strings.Join(ks, "; ")+"])", obs)
+	case pc.Proto == "introduce" && pc.Index == 0 && pc.Second && pc.Mut == "seed":
+		return mkCase("(I9meta [false; false])", obs)
+	}
+
+	return ""
 }
